@@ -12,6 +12,15 @@ TRUST = ('Trusted base: rustc nightly THIR/MIR for this source (same cfgs as the
          'the evidence file.')
 
 CHECKS = {
+    'C19': {
+        'technique': 'coupling analysis: finite enumeration of abstract paths (truth assignments of the atoms in the writers\' path conditions + pre-state flags) comparing counter deltas with the change of the counted predicate; field provenance for LUSERS/ISON/USERHOST; acquire/release pairing for connection slots',
+        'level': ('Decides for every abstract path of every writer that operators_count / invisible_users_count / the WALLOPS set '
+                  'move exactly with the flags they count (three pinned-tree defects reported as known findings), that no other '
+                  'function writes them, that max_users_count is the high-water mark, that each LUSERS/ISON/USERHOST field is the '
+                  'stated term, and that connection slots are taken once, compared as previous < max, returned on refusal and '
+                  'released exactly once by Drop of the only-here-constructed ConnState.'),
+        'note': TRUST + ' Loop iterations of user MODE are treated as independent transitions (inductive step of the coupling invariant).',
+    },
     'C16': {
         'technique': 'typed census of channel-map writers, structural shape check of the constructor literals (returned terms), field-wise agreement of the rank-list hand-over, sibling agreement for configured ranks',
         'level': ('Decides that channels are created only by JOIN and configuration loading and deleted only by '
